@@ -104,6 +104,12 @@ def scenarios(tier, seed=0):
             hd = D(2001, 5, 1) + dt.timedelta(days=h)
             for off in (False, True):
                 out.append(mk("05/01", L, D(2001, 4, 29), D(2002, 7, 15), off, harvest=f"{hd.month:02d}/{hd.day:02d}"))
+    # ... and across years whose planting-to-harvest window does / does not contain 29 February (several seasons)
+    for off in (False, True):
+        for start, end in ((D(2003, 1, 28), D(2005, 4, 30)), (D(2004, 1, 30), D(2006, 4, 30)), (D(2003, 2, 1), D(2004, 12, 30))):
+            for h in ("03/05", "03/01", "02/29" if False else "02/28"):
+                out.append(mk("02/01", 40, start, end, off, harvest=h))
+        out.append(mk("12/20", 40 if not q else 18, D(2002, 12, 20), D(2005, 3, 30), off, harvest="03/02" if not q else "01/05"))
     # stepping styles
     styles = ["till", "step1", "chunk2", "chunk3", "chunk7", "chunk1000"]
     for style in styles:
